@@ -69,7 +69,7 @@ DIRECTED = [
     [C(0), C(1, True), W(0), Q(1, v=2), STOP, D(0), D(1, "exit")],
     [C(0), W(0), D(0), C(1), Q(1, v=0), D(1)],             # ... and without a stop the server keeps serving others
     # every concrete query line through a raw client and through the bundled CLI client (quotes, a 12 kB reply ...)
-    [C(0), C(1, True)] + [Q(s, v=v) for v in range(7) for s in (0, 1)] + [D(0), D(1, "exit"), STOP],
+    [C(0), C(1, True)] + [Q(s, v=v) for v in range(8) for s in (0, 1)] + [D(0), D(1, "exit"), STOP],
 ]
 
 
